@@ -55,6 +55,7 @@ type SliceM []any                    // []interface{}
 type ErrM struct {
 	Contains []string
 	Why      string
+	Token    string // the raw %token% the error must name; other Contains are looked up outside of it
 }
 
 func errf(why string, contains ...string) *ErrM { return &ErrM{Contains: contains, Why: why} }
@@ -400,8 +401,8 @@ func (it *Interp) evalChunk(ch Chunk) (any, *ErrM) {
 			return nil, errf("unknown args")
 		}
 		v, e := it.callFn(ch.Text, args)
-		if e != nil {
-			e.Contains = append(e.Contains, ch.Raw) // a failing function yields an error naming the token
+		if e != nil && e.Token == "" {
+			e.Token = ch.Raw // a failing function yields an error naming the token
 		}
 		return v, e
 	}
